@@ -190,6 +190,15 @@ class OptimizerGeneric:
                                        bounds=bounds,
                                        options=options,
                                        tol=tol)
+        return self._apply_result(result)
+
+    def _apply_result(self, result):
+        """Leave the optics in the state of the returned solution: the last
+        point evaluated by the solver is in general not result.x (and with
+        worker processes the optics of this process were never updated)."""
+        for idvar, var in enumerate(self.problem.variables):
+            var.update(result.x[idvar])
+        self.problem.update_optics()
         return result
 
     def undo(self):
@@ -282,7 +291,7 @@ class LeastSquares(OptimizerGeneric):
                                             max_nfev=maxiter,
                                             verbose=verbose,
                                             ftol=tol)
-        return result
+        return self._apply_result(result)
 
 
 class DualAnnealing(OptimizerGeneric):
@@ -324,7 +333,7 @@ class DualAnnealing(OptimizerGeneric):
                                              bounds=bounds,
                                              maxiter=maxiter,
                                              x0=x0)
-        return result
+        return self._apply_result(result)
 
 
 class DifferentialEvolution(OptimizerGeneric):
@@ -386,4 +395,4 @@ class DifferentialEvolution(OptimizerGeneric):
                                                      disp=disp,
                                                      updating=updating,
                                                      workers=workers)
-        return result
+        return self._apply_result(result)
